@@ -492,7 +492,8 @@ def run_token(sc):
             params = {"taskToken": tok}
             if act["kind"] == "success":
                 action = "SendTaskSuccess"
-                params["output"] = json.dumps(act["output"])
+                # "raw": the output argument is a JSON value instead of the documented JSON text (a caller's mistake): refused or accepted, never an internal error
+                params["output"] = act["output"] if act.get("raw") else json.dumps(act["output"])
             else:
                 action = "SendTaskFailure"
                 if act.get("error") is not None:
@@ -510,12 +511,17 @@ def run_token(sc):
                 fails.append(("callback-api-internal-error:%s" % action, "%s(%r) -> %s %r" % (action, {k: v for k, v in params.items() if k != "taskToken"}, status, body)))
             if not wf:
                 typ = body.get("__type", "") if isinstance(body, dict) else ""
-                if status != 400 or "InvalidToken" not in typ:
+                # (with an output that is not JSON text either, the call may be refused for that instead)
+                if act.get("raw") and status == 400 and typ in ("MissingRequiredParameter", "InvalidOutput"):
+                    pass
+                elif status != 400 or "InvalidToken" not in typ:
                     fails.append(("malformed-token-not-InvalidToken:%s" % act["token"], "%s with %s token -> %s %r" % (action, act["token"], status, body)))
                 if published:
                     fails.append(("malformed-token-had-effect:%s" % act["token"], "%d messages published" % published))
             elif live:
-                if status != 200:
+                if act.get("raw") and 400 <= status < 500 and not published:
+                    pass        # refused without effect
+                elif status != 200:
                     fails.append(("valid-token-refused", "%s -> %s %r" % (action, status, body)))
                 else:
                     target["state"] = "done"
@@ -713,7 +719,7 @@ def strategies():
     variants = st.sampled_from(["valid"] * 6 + ["dup", "old", "other", "truncated", "bad_suffix", "three_parts", "garbage", "forged", "wrong_queue"])
     action = st.one_of(
         st.fixed_dictionaries({"kind": st.just("success"), "token": variants, "output": outputs}),
-        st.fixed_dictionaries({"kind": st.just("success"), "token": variants, "output": outputs}),
+        st.fixed_dictionaries({"kind": st.just("success"), "token": variants, "output": outputs, "raw": st.sampled_from([False, False, False, True])}),
         st.fixed_dictionaries({"kind": st.just("failure"), "token": variants, "error": st.sampled_from(["RetryMe", "RetryMe", "Boom", None]),
                                "cause": st.sampled_from(["why", None, ""])}),
         st.fixed_dictionaries({"kind": st.just("reply"), "output": st.sampled_from([{"r": 1}, "x", None, [0]])}),
